@@ -60,8 +60,10 @@ func main() {
 		runs      = flag.Int("runs", 0, "override number of runs")
 		budget    = flag.Int("budget", 0, "wall-clock cap in seconds per batch (0 = tier default)")
 		sitesFile = flag.String("sites", "", "sites.json from simbuild")
+		aslimit   = flag.Int("aslimit", 0, "address-space cap in MiB for this process (isolated children)")
 	)
 	flag.Parse()
+	setAddressSpaceLimit(*aslimit)
 	loadKeys()
 	registerAll()
 	_ = sitesFile
